@@ -39,6 +39,9 @@ static unsigned n_alloc, n_free;
 #ifndef C10_FN2
 #define C10_FN2 C10_FN            /* a second function of the same size class (e.g. UNKNOWN for LOP) */
 #endif
+#if defined(C10_TYPED) && !defined(C10_DATA)
+#define C10_DATA 0
+#endif
 #ifndef C10_DATA
 #define C10_DATA 8                /* bytes of page body kept under CBMC (see the memcpy model below) */
 #endif
@@ -178,7 +181,13 @@ struct view {
   struct ttx_page_stat st[NN][NA];
 };
 
+#if defined(C10_TYPED) && defined(VERIF_CBMC)
+#define M0_OF(cp) 0
+#define M0_SET(cp, v) ((void) (v))
+#else
 #define M0_OF(cp) (*(const uint8_t *) &(cp)->data)
+#define M0_SET(cp, v) (*(uint8_t *) &(cp)->data = (uint8_t) (v))
+#endif
 #define K_HASH 0
 #define K_PRI 1
 #define K_NET 2
@@ -445,7 +454,7 @@ static void build_state(int max_pages)
     cp->network = cn; cp->ref_count = ref; cp->priority = zombie ? CACHE_PRI_ZOMBIE : (pri ? CACHE_PRI_SPECIAL : CACHE_PRI_NORMAL);
     cp->function = (enum ttx_page_function) fn; cp->pgno = pgno; cp->subno = (int) subno; cp->national = (int) nat; cp->flags = flags;
     cp->x26_designations = C10_X26; cp->x28_designations = C10_X28;
-    *(uint8_t *) &cp->data = (uint8_t) m0;
+    M0_SET(cp, m0);
     if (ref > 0) cn->n_referenced_pages++; else CA->memory_used += C10_PSIZE;
     CA->n_cached_pages++; cn->n_cached_pages++; ps->n_subpages++;
   }
@@ -969,6 +978,134 @@ V_HARNESS(h_delete)
   V_ASSERT(n_free == n_alloc && !ca_live, "delete_frees_every_allocation");
   for (i = 0; i < NP; i++) V_ASSERT(!pg_live[i], "delete_frees_pages");
   for (i = 0; i < NN; i++) V_ASSERT(!net_live[i], "delete_frees_networks");
+  V_END();
+}
+
+/* ---------------------------------------------------------------- SEQ-k from the empty cache
+ * vbi_cache_new(), one network (_vbi_cache_add_network as vbi_decoder does), then C10_K operations.  Kind and page
+ * number of each operation are concrete (grid: C10_O<k> in 'P' put, 'G' get, 'U' unref of a page the harness
+ * holds, 'N' channel switch = cache_network_unref + _vbi_cache_add_network; C10_Q<k> alphabet index), subpage
+ * numbers, masks, which held page is released and the decoder's page type are symbolic.  After every operation
+ * the audit must hold and the result is compared with a reference map: a recency-ordered list of
+ * (page number, stored subpage number, the pointer put returned). */
+#ifndef C10_K
+#define C10_K 3
+#endif
+#ifndef C10_O0
+#define C10_O0 'P'
+#endif
+#ifndef C10_O1
+#define C10_O1 'P'
+#endif
+#ifndef C10_O2
+#define C10_O2 'G'
+#endif
+#ifndef C10_O3
+#define C10_O3 'U'
+#endif
+#ifndef C10_Q0
+#define C10_Q0 0
+#endif
+#ifndef C10_Q1
+#define C10_Q1 0
+#endif
+#ifndef C10_Q2
+#define C10_Q2 0
+#endif
+#ifndef C10_Q3
+#define C10_Q3 0
+#endif
+#define MAXK 4
+static const int SEQ_OP[MAXK] = { C10_O0, C10_O1, C10_O2, C10_O3 };
+static const int SEQ_PG[MAXK] = { C10_Q0, C10_Q1, C10_Q2, C10_Q3 };
+struct ment { int used, pgno, subno; cache_page *cp; uint8_t m0; };       /* reference map entry, [0] = most recent */
+static struct ment MAP[MAXK];
+static int map_n;
+static cache_page *HELD[2 * MAXK]; static int held_n;
+static int map_find(int pgno, int subno, int mask)
+{ int k, r = -1; for (k = MAXK - 1; k >= 0; k--) if (k < map_n && MAP[k].pgno == pgno && ((MAP[k].subno ^ subno) & mask) == 0) r = k; return r; }
+static void map_remove(int j) { int k; for (k = 0; k < MAXK - 1; k++) if (k >= j) MAP[k] = MAP[k + 1]; map_n--; }
+static void map_front(struct ment e) { int k; for (k = MAXK - 1; k > 0; k--) MAP[k] = MAP[k - 1]; MAP[0] = e; map_n++; }
+
+V_HARNESS(h_seq)
+{
+  int k, j; cache_network *cn;
+  V_INIT();
+  CA = vbi_cache_new();
+  cn = _vbi_cache_add_network(CA, NULL, 0);
+  V_ASSERT(cn != NULL && audit(&V0) && V0.nn == 1 && V0.n_ref[0] == 1, "seq_first_network");
+  src_new();
+  for (k = 0; k < C10_K; k++) {
+    const int op = SEQ_OP[k], pgno = PGA[SEQ_PG[k]];
+    unsigned subno = in_u16(), mask = in_u32(), hsel = in_u8(), ptype = in_u8(); uint8_t m0 = in_u8();
+    if (op == 'P') {
+      int s2, m, v; cache_page *r; struct ment e;
+      V_ASSUME((subno & ~0x3F7Fu) == 0);
+      cn->_pages[pgno - 0x100].page_type = (uint8_t) ptype;       /* the decoder (packet.c) owns page_type */
+      SRC.function = (enum ttx_page_function) (C10_FN); SRC.x26_designations = C10_X26; SRC.x28_designations = C10_X28;
+      SRC.pgno = pgno; SRC.subno = (int) subno; ((uint8_t *) SRCP)[offsetof(cache_page, data)] = m0;
+      r = _vbi_cache_put_page(CA, cn, SRCP);
+      V_ASSERT(r != NULL, "seq_put_succeeds");
+      ref_put_key(pgno, (int) subno, (int) ptype, &s2, &m);
+      v = map_find(pgno, s2 & m, m);
+      if (v >= 0) map_remove(v);
+      e.used = 1; e.pgno = pgno; e.subno = s2; e.cp = r; e.m0 = m0;
+      map_front(e);
+      V_ASSERT(r->pgno == pgno && r->subno == s2 && M0_OF(r) == m0 && r->ref_count == 1, "seq_put_result");
+      HELD[held_n++] = r;
+    } else if (op == 'G') {
+      cache_page *r; int v;
+      r = _vbi_cache_get_page(CA, cn, pgno, (int) subno, (int) mask);
+      v = map_find(pgno, (int) subno, (int) subno == VBI_ANY_SUBNO ? 0 : (int) mask);
+      V_ASSERT((v < 0) == (r == NULL), "seq_get_found_iff_in_map");
+      if (v >= 0) {
+        struct ment e = MAP[v];
+        V_ASSERT(r == e.cp && r->pgno == e.pgno && r->subno == e.subno && M0_OF(r) == e.m0, "seq_get_returns_most_recent_version");
+        map_remove(v); map_front(e);
+        HELD[held_n++] = r;
+        V_REACH("seq_hit");
+      } else HELD[held_n++] = NULL;
+    } else if (op == 'U') {
+      V_ASSUME(hsel < (unsigned) held_n);
+      for (j = 0; j < 2 * MAXK; j++) if (j == (int) hsel) { cache_page_unref(HELD[j]); HELD[j] = NULL; }   /* NULL: no-op by contract */
+    } else {                                                      /* 'N': vbi_chsw_reset */
+      cache_network_unref(cn);
+      cn = _vbi_cache_add_network(CA, NULL, 0);
+      V_ASSERT(cn != NULL, "seq_switch_gets_network");
+      map_n = 0;                                                  /* no page of the old network is reachable */
+    }
+    V_ASSERT(audit(&V1), "seq_audit_after_every_operation");
+    /* every map entry is a live, non-zombie page of the current network with that key; nothing else is */
+    { int cnt = 0, i;
+      for (i = 0; i < NP; i++) if (V1.p_live[i] && V1.p_pri[i] != CACHE_PRI_ZOMBIE && net_ptr[V1.p_net[i]] == cn) cnt++;
+      V_ASSERT(cnt == map_n, "seq_map_size");
+      for (j = 0; j < MAXK; j++) if (j < map_n) {
+        int ok = 0;
+        for (i = 0; i < NP; i++) if (V1.p_live[i] && pg_ptr[i] == MAP[j].cp) ok = V1.p_pri[i] != CACHE_PRI_ZOMBIE && V1.p_pgno[i] == MAP[j].pgno && V1.p_subno[i] == MAP[j].subno && V1.p_m0[i] == MAP[j].m0;
+        V_ASSERT(ok, "seq_map_entry_is_cached_intact");
+      }
+    }
+#ifdef C10_RANGE
+    /* what _vbi_cache_foreach_page (vbi_search) and vbi_cache_hi_subno rely on: the subpage range recorded for a page
+     * number covers every cached subpage (subpage numbers proper, 0 .. 0x79) */
+    { int i;
+      for (i = 0; i < NP; i++) if (V1.p_live[i] && V1.p_pri[i] != CACHE_PRI_ZOMBIE && net_ptr[V1.p_net[i]] == cn && V1.p_subno[i] <= 0x79) {
+        const struct ttx_page_stat *ps = &cn->_pages[V1.p_pgno[i] - 0x100];
+        V_ASSERT(ps->subno_min <= V1.p_subno[i] && V1.p_subno[i] <= ps->subno_max, "seq_subno_range_covers_cached_subpages");
+      }
+    }
+#endif
+#ifdef C10_MINMAX
+    { int a; for (a = 0; a < NA; a++) { const struct ttx_page_stat *ps = &cn->_pages[PGA[a] - 0x100];
+        V_ASSERT(ps->n_subpages == 0 || ps->subno_min <= ps->subno_max, "seq_subno_min_le_max_when_cached"); } }
+#endif
+  }
+  /* release everything: every allocation is freed */
+  for (j = 0; j < 2 * MAXK; j++) if (j < held_n) cache_page_unref(HELD[j]);
+  V_ASSERT(audit(&V1) && V1.rn == 0, "seq_audit_after_release");
+  cache_network_unref(cn);
+  vbi_cache_delete(CA);
+  V_ASSERT(n_free == n_alloc && !ca_live, "seq_release_frees_every_allocation");
   V_END();
 }
 
